@@ -1,3 +1,5 @@
 fn main() {
-    std::process::exit(swv::entry());
+    // run on a thread with a large stack (see swv::entry)
+    let h = std::thread::Builder::new().stack_size(1 << 30).spawn(swv::entry).expect("spawn");
+    std::process::exit(h.join().unwrap_or(2));
 }
